@@ -18,9 +18,9 @@ from aiocoap import Message, GET, PUT, NON, CON, error, resource
 PROP = "C18"
 LEVEL = "model_checking"
 RULE = ("E2: Context.shutdown() injected after every step of the default run (K=1) and of every one-deviation run (K=2; drop, "
-        "duplicate, reorder) of sixteen busy scenarios (one next to a second bystander that is a server with a running handler and an observer; one with CON notifications acknowledged late; among them an observation whose iterating consumer task has been cancelled, an observation whose first notification is block-wise and observations whose "
+        "duplicate, reorder) of eighteen busy scenarios (one next to a second bystander that is a server with a running handler and an observer; one with CON notifications acknowledged late; among them an observation whose iterating consumer task has been cancelled, an observation whose first notification is block-wise and observations whose "
         "consumer subscribes only after the shutdown), plain and with the loop stalling for 0.15 s / 3.5 s after the 1st..6th loop iteration "
-        "of the shutdown (timers due in between run late), plain also with a request submitted by another task after the 1st..4th loop iteration of the shutdown with the application cancelling what it waits for in the same step, with a datagram of the peer (new request / response to nothing) becoming readable after the 1st..3rd loop iteration, with one more request submitted in the very step that starts the shutdown; a handler whose clean-up after the cancellation outlasts the time-out; followed by a full drain; distinct = distinct schedule")
+        "of the shutdown (timers due in between run late), plain also with a request submitted by another task after the 1st..4th loop iteration of the shutdown with the application cancelling what it waits for in the same step, with a datagram of the peer (new request / response to nothing / acknowledgement of the last confirmable message) becoming readable before the first and after the 1st..3rd loop iteration of the shutdown, with the shutdown beginning in the loop pass in which the next datagram is read, with one more request submitted in the very step that starts the shutdown; a handler whose clean-up after the cancellation outlasts the time-out; followed by a full drain; distinct = distinct schedule")
 ASSUMPTIONS = [
     "SHUTDOWN_TIMEOUT = 3 s (numbers/constants.py documentation); EXCHANGE_LIFETIME = 247 s",
     "the bystander context lives in the same loop and talks to its own peer",
